@@ -2,8 +2,8 @@
 (* C18 (1): a struct parameter and its member parameters agree member by     *)
 (* member after every operation (frappy/extparams.py StructParam).           *)
 (*                                                                           *)
-(* hw  : what the hardware holds, per member (it clips at HwMax and reports   *)
-(*       the stored value, as real devices round or clip)                    *)
+(* hw  : what the hardware holds, per member (above HwMax it clips and reports *)
+(*       the stored value, or refuses - see hwmode)                          *)
 (* mem : cached value of the member parameters                               *)
 (* str : cached value of the struct parameter, per member                    *)
 (* The update stream is not a separate variable: the property demands that   *)
@@ -20,17 +20,26 @@ EXTENDS Naturals, FiniteSets, TLC
 
 CONSTANTS Members,    \* member names (strings)
           Vals,       \* values (small naturals) used by operations
-          HwMax       \* the hardware stores Min(v, HwMax) and answers with what it stored
+          HwMax,      \* largest value the hardware can hold
+          HwModes     \* subset of {"clip", "refuse"}: what the hardware does with a value above HwMax
 
-VARIABLES hw, mem, str
-svars == <<hw, mem, str>>
+(* hwmode : "clip"   the hardware stores Min(v, HwMax) and answers with what it stored              *)
+(*          "refuse" the access method raises an error for that value and stores nothing of it;   *)
+(*                   a combined write method refuses the whole struct, member-wise write methods   *)
+(*                   may have written other members before the refusal (a partial write)           *)
+(* ok     : the last operation was accepted                                                        *)
+VARIABLES hwmode, hw, mem, str, ok
+svars == <<hwmode, hw, mem, str, ok>>
 
 AllVals == Vals \cup {0}
 Fn == [Members -> AllVals]
 Const(v) == [m \in Members |-> v]
 Store(v) == IF v > HwMax THEN HwMax ELSE v
 
-SInit == /\ hw = Const(0)
+Refused(v) == hwmode = "refuse" /\ v > HwMax
+
+SInit == /\ hwmode \in HwModes
+         /\ hw = Const(0) /\ ok = TRUE
          /\ mem = hw /\ str = hw      \* after the start-up poll the cache shows the hardware
 
 (* other members k # m may keep their cached value or be refreshed *)
@@ -38,28 +47,47 @@ Others(m, f, keep, fresh) ==
     \A k \in Members \ {m} : f[k] \in {keep[k], fresh[k]}
 
 WriteStruct(v) ==            \* v \in Fn: change <struct> / write_<struct>(v)
-    /\ hw' = [m \in Members |-> Store(v[m])] /\ mem' = hw' /\ str' = hw'
+    /\ IF \E m \in Members : Refused(v[m])
+       THEN \* refused; members that are not refused themselves may have reached the hardware,
+            \* the cache may show them - but struct and members still agree
+            /\ hw' \in {h \in Fn : \A m \in Members : IF Refused(v[m]) THEN h[m] = hw[m]
+                                                                      ELSE h[m] \in {hw[m], v[m]}}
+            /\ mem' \in {f \in Fn : \A m \in Members : f[m] \in {mem[m], hw'[m]}}
+            /\ str' = mem' /\ ok' = FALSE
+       ELSE hw' = [m \in Members |-> Store(v[m])] /\ mem' = hw' /\ str' = hw' /\ ok' = TRUE
+    /\ UNCHANGED hwmode
+
+(* a combined write method sends the cached values of the other members along: one of *)
+(* them may be refused by the hardware, then nothing is written                        *)
+CarriesRefused(m) == \E k \in Members \ {m} : Refused(str[k])
+HwAfterMemberWrite(m, v) ==
+    {h \in Fn : /\ h[m] = Store(v)
+                /\ \A k \in Members \ {m} : (h[k] = hw[k]) \/ (~Refused(str[k]) /\ h[k] = Store(str[k]))}
 
 WriteMember(m, v) ==         \* change <member> / write_<member>(v)
-    /\ hw' \in {h \in Fn : h[m] = Store(v) /\ Others(m, h, hw, [k \in Members |-> Store(str[k])])}
-    /\ mem' \in {f \in Fn : f[m] = Store(v) /\ Others(m, f, mem, hw')}
-    /\ str' = mem'
+    /\ \/ /\ Refused(v) \/ CarriesRefused(m)
+          /\ UNCHANGED <<hw, mem, str>> /\ ok' = FALSE
+       \/ /\ ~Refused(v)
+          /\ hw' \in HwAfterMemberWrite(m, v)
+          /\ mem' \in {f \in Fn : f[m] = Store(v) /\ Others(m, f, mem, hw')}
+          /\ str' = mem' /\ ok' = TRUE
+    /\ UNCHANGED hwmode
 
 ReadStruct ==                \* read <struct> / read_<struct>()
-    /\ mem' = hw /\ str' = hw /\ UNCHANGED hw
+    /\ mem' = hw /\ str' = hw /\ ok' = TRUE /\ UNCHANGED <<hw, hwmode>>
 
 ReadMember(m) ==             \* read <member> / read_<member>()
     /\ mem' \in {f \in Fn : f[m] = hw[m] /\ Others(m, f, mem, hw)}
-    /\ str' = mem'
-    /\ UNCHANGED hw
+    /\ str' = mem' /\ ok' = TRUE
+    /\ UNCHANGED <<hw, hwmode>>
 
 AssignMember(m, v) ==        \* driver: self.<member> = v   (cache only)
     /\ mem' = [mem EXCEPT ![m] = v]
-    /\ str' = mem'
-    /\ UNCHANGED hw
+    /\ str' = mem' /\ ok' = TRUE
+    /\ UNCHANGED <<hw, hwmode>>
 
 AssignStruct(v) ==           \* driver: self.<struct> = v   (cache only)
-    /\ mem' = v /\ str' = v /\ UNCHANGED hw
+    /\ mem' = v /\ str' = v /\ ok' = TRUE /\ UNCHANGED <<hw, hwmode>>
 
 SNext == \/ \E v \in [Members -> Vals] : WriteStruct(v) \/ AssignStruct(v)
          \/ \E m \in Members, v \in Vals : WriteMember(m, v) \/ AssignMember(m, v)
@@ -73,7 +101,9 @@ TypeOK == hw \in Fn /\ mem \in Fn /\ str \in Fn
 Agree == \A m \in Members : str[m] = mem[m]
 (* a value written through either path is what the hardware holds and the cache shows *)
 WriteLands == [][\A m \in Members, v \in Vals :
-                   WriteMember(m, v) => (hw'[m] = Store(v) /\ mem'[m] = hw'[m] /\ str'[m] = hw'[m])]_svars
+                   (WriteMember(m, v) /\ ok') => (hw'[m] = Store(v) /\ mem'[m] = hw'[m] /\ str'[m] = hw'[m])]_svars
+(* a refused value never reaches the hardware *)
+RefusedNotStored == [][\A m \in Members : hw'[m] # hw[m] => hw'[m] <= HwMax]_svars
 (* a complete read makes cache and hardware equal *)
 ReadShowsHw == [][ReadStruct => (mem' = hw /\ str' = hw)]_svars
 (* only writes touch the hardware *)
